@@ -14,10 +14,10 @@ META = dict(
     property="C54",
     level="exploration",
     technique="generated FTP command sessions against the real FTP protocol + FTPShell/FTPAnonymousShell on a scratch root with prefix-sharing siblings, data connections through the real DTP over an in-memory transport, every filesystem call audited with sys.addaudithook; complete small scope of (prefix, command, path)",
-    level_text="Each case is a whole control-connection session (login as a user -> FTPShell, or anonymous -> FTPAnonymousShell; then CWD/CDUP/PWD/MKD/RMD/DELE/RNFR/RNTO/SIZE/MDTM/LIST/NLST/RETR/STOR/APPE/raw lines with hostile path arguments). While the session runs, every open/listdir/scandir/mkdir/rmdir/remove/rename/link/symlink/truncate/chmod event is recorded and each path must resolve inside realpath(root); afterwards everything in the scratch tree outside root (T/secret, T/root.secret, T/rootsib/...) must be byte-identical, and no control or data output may contain the content of an outside file. Quick tier enumerates every (prefix in {none, CWD sub, CWD sub/deep}) x (command) x (path of <= 2 segments over 5 atoms, relative and absolute, plus classic traversal spellings), and for both shells every command x every one-character disguise of '..' (NUL, 0x01, TAB, 0x1f, DEL, space inserted at each position) x climb targets (prefix-sharing sibling, its files, the parent's files), from / and from /sub, and renames/RMD/DELE/MKD/STOR whose source or destination is the root directory itself (7 spellings x 9 peers); longer sessions are sampled.",
+    level_text="Each case is a whole control-connection session (login as a user -> FTPShell, or anonymous -> FTPAnonymousShell; then CWD/CDUP/PWD/MKD/RMD/DELE/RNFR/RNTO/SIZE/MDTM/LIST/NLST/RETR/STOR/APPE/raw lines with hostile path arguments). While the session runs, every open/listdir/scandir/mkdir/rmdir/remove/rename/link/symlink/truncate/chmod event is recorded and each path must resolve inside realpath(root); afterwards everything in the scratch tree outside root (T/secret, T/root.secret, T/rootsib/...) must be byte-identical, and no control or data output may contain the content of an outside file. Quick tier enumerates every (prefix in {none, CWD sub, CWD sub/deep}) x (command) x (path of <= 2 segments over 5 atoms, relative and absolute, plus classic traversal spellings), and for both shells every command x every one-character disguise of '..' (NUL, 0x01, TAB, 0x1f, DEL, space inserted at each position) x climb targets (prefix-sharing sibling, its files, the parent's files), from / and from /sub, and renames/RMD/DELE/MKD/STOR whose source or destination is the root directory itself (7 spellings x 9 peers); roots that start with a single file, a single empty directory, a nested pair of empty directories or nothing at all (every command x 10 paths, plus clean-out sequences), so that a removal can leave the root empty; longer sessions are sampled.",
     level_note="Only Python-level audit events are seen (stat-type probes and libc calls such as getpwuid are not); DESIGN deliberately leaves stat probes unasserted. The data connection is the real ftp.DTP over an in-memory transport installed by the harness before each data command (PASV/PORT socket set-up is not exercised). reactor.callLater is replaced by a task.Clock for the session. Symbolic links are not created. 'internal server error' replies are counted, not asserted.",
     design_ref="§5 C54",
-    rule="case = (shell kind, [(command, path argument)...]); path arguments are concatenations of atoms (.., ., empty, names inside root, sibling/secret names, NUL, backslash, globs, latin-1, absolute scratch paths, and '.'/'..' with control characters, DEL, blanks or NUL inserted before, inside or after them) joined with '/'. non-trivial = authenticated session with at least one filesystem command whose argument contains '..', is absolute, or names a sibling/secret/NUL/backslash; distinct by the whole session.",
+    rule="case = (shell kind, [root layout,] [(command, path argument)...]); path arguments are concatenations of atoms (.., ., empty, names inside root, sibling/secret names, NUL, backslash, globs, latin-1, absolute scratch paths, and '.'/'..' with control characters, DEL, blanks or NUL inserted before, inside or after them) joined with '/'. non-trivial = authenticated session with at least one filesystem command whose argument contains '..', is absolute, or names a sibling/secret/NUL/backslash; distinct by the whole session.",
 )
 
 OUTSIDE = {
@@ -142,7 +142,19 @@ def _snapshot_outside(T):
     return snap
 
 
-def _rebuild(T, everything=False):
+# what the root holds when the session starts: (files, empty directories)
+LAYOUTS = {
+    "full": (INSIDE, []),
+    "onefile": ({"root/a.txt": b"inside a.txt"}, []),
+    "onedir": ({}, ["root/only"]),
+    "nested": ({}, ["root/in/2024"]),
+    "empty": ({}, ["root"]),
+}
+_LAYOUT = {}
+
+
+def _rebuild(T, everything=False, layout="full"):
+    _LAYOUT[os.getpid()] = layout
     if everything:
         for n in os.listdir(_top(T)):
             p = os.path.join(_top(T), n)
@@ -151,7 +163,10 @@ def _rebuild(T, everything=False):
         _write_files(T, OUTSIDE)
     else:
         shutil.rmtree(os.path.join(T, "root"), ignore_errors=True)
-    _write_files(T, INSIDE)
+    files, dirs = LAYOUTS[layout]
+    _write_files(T, files)
+    for d in dirs:
+        os.makedirs(os.path.join(T, d), exist_ok=True)
 
 
 @contextlib.contextmanager
@@ -320,10 +335,13 @@ def _hostile(arg):
 
 
 def run_case(ctx, case):
+    layout = case.get("layout", "full")
     with _tree() as T:
         root = os.path.join(T, "root")
+        if _LAYOUT.get(os.getpid()) != layout:
+            _rebuild(T, layout=layout)
         log, control, data = run_session(case, T)
-        detail = f"shell={case['shell']} ops={case['ops']!r}: "
+        detail = f"shell={case['shell']} root layout={layout} ops={case['ops']!r}: "
         try:
             bad = outside_accesses(log, root)
             if bad:
@@ -344,7 +362,7 @@ def run_case(ctx, case):
             raise
         if any(ev in _MUTATING or (ev == "open" and isinstance(extra, str) and extra[:1] in "wax+")
                for ev, _p, extra in log):
-            _rebuild(T)
+            _rebuild(T, layout=layout)
             ctx.count("session changed the root tree")
     # bookkeeping
     replies = [ln[:3] for ln in control.split(b"\r\n") if ln[:3].isdigit()]
@@ -356,6 +374,9 @@ def run_case(ctx, case):
         if c in FS_CMDS and _hostile(arg):
             nh += 1
     ctx.count("shell=" + case["shell"])
+    ctx.count("root layout=" + layout)
+    if layout != "full" and any(ev in ("os.rmdir", "os.remove", "os.rename") for ev, _p, _e in log):
+        ctx.count("class: removal/rename in a root that holds (almost) nothing, so that it can become empty")
     for r in replies:
         ctx.count("reply " + r.decode()[:1] + "xx")
     if b"internal server error" in control:
@@ -383,7 +404,7 @@ def run_case(ctx, case):
         if any(c.upper() in ("RNFR", "RNTO") for c in names_root):
             ctx.count("class: rename with the root directory itself as source or destination")
     if authed and (nh or names_root):
-        ctx.nontrivial((case["shell"], tuple(tuple(o) for o in case["ops"])))
+        ctx.nontrivial((case["shell"], layout, tuple(tuple(o) for o in case["ops"])))
         ctx.count("nontrivial")
         if len(ctx.samples) < 5 and len(case["ops"]) >= 3 and nh >= 2:
             ctx.sample(case)
@@ -392,7 +413,7 @@ def run_case(ctx, case):
 # --------------------------------------------------------------------------
 # generators
 
-SEGS = ["..", ".", "", "sub", "deep", "a.txt", "b.txt", "c.txt", "empty", "new", "new2", "rootsib", "secret", "root",
+SEGS = ["..", ".", "", "sub", "deep", "a.txt", "only", "in", "2024", "b.txt", "c.txt", "empty", "new", "new2", "rootsib", "secret", "root",
         "root.secret", "x", "d", "..\\", "\\", "\x00", "a\x00b", "*", "?*", "[a-z]*", "~", " ", "\xff", "...", ". .",
         "{T}", "{ROOT}", "{ROOT}sib", "sib", "a" * 200]
 ENUM_SEGS = ["..", "sub", "rootsib", "secret", "a.txt"]
@@ -475,10 +496,27 @@ def _enum_root_itself(shell):
                 yield dict(shell=shell, ops=prefix + [[cmd, r]])
 
 
+SPARSE_PATHS = ["only", "in/2024", "in", "a.txt", "", "/", ".", "new", "in/2024/..", "only/."]
+
+
+def _enum_sparse(shell="user"):
+    """roots that hold a single entry or nothing: every command x a few paths, and the two-step clean-outs"""
+    for layout in ("onefile", "onedir", "nested", "empty"):
+        for cmd in COMMANDS:
+            for path in SPARSE_PATHS:
+                yield dict(shell=shell, layout=layout, ops=_one(cmd, path, []))
+        yield dict(shell=shell, layout=layout, ops=[["RMD", "in/2024"], ["RMD", "in"], ["RMD", "/"]])
+        yield dict(shell=shell, layout=layout, ops=[["DELE", "a.txt"], ["RMD", "/"], ["MKD", "new"]])
+        yield dict(shell=shell, layout=layout, ops=[["CWD", "in"], ["RMD", "2024"], ["CDUP", None], ["RMD", "in"]])
+        yield dict(shell=shell, layout=layout, ops=[["RNFR", "only"], ["RNTO", "in"], ["RMD", "in"]])
+
+
 def _enum_dis_shard(ctx, shell):
     with _tree():
         enumerate_run(ctx, _enum_disguised(shell), run_case, stop_after_violation=False)
         enumerate_run(ctx, _enum_root_itself(shell), run_case, stop_after_violation=False)
+        if shell == "user":
+            enumerate_run(ctx, _enum_sparse(), run_case, stop_after_violation=False)
 
 
 def _enum_shard(ctx, arg):
@@ -531,7 +569,11 @@ def _session(draw):
             ops.append(["CWD", draw(st.sampled_from(["sub", "sub/deep", "deep", "empty", "/sub", "..", "/"]))])
         else:
             ops.append([cmd, draw(_path())])
-    return dict(shell=shell, ops=ops)
+    case = dict(shell=shell, ops=ops)
+    layout = draw(st.sampled_from(["full"] * 5 + ["onefile", "onedir", "nested", "empty"]))
+    if layout != "full":
+        case["layout"] = layout
+    return case
 
 
 def _hyp_shard(sub, i):
@@ -558,6 +600,7 @@ def run(ctx):
             enumerate_run(ctx, _enum_disguised("user"), run_case, stop_after_violation=False)
             enumerate_run(ctx, _enum_disguised("anon"), run_case, stop_after_violation=False)
             enumerate_run(ctx, _enum_root_itself("user"), run_case, stop_after_violation=False)
+            enumerate_run(ctx, _enum_sparse(), run_case, stop_after_violation=False)
     if ctx.has_violation():
         return
     if ctx.thorough:
